@@ -94,7 +94,15 @@ def flags(repo):
     if len({late_rollback, store_first, store_removed}) != 1:
         raise RuntimeError("translate/execflags: apply_plan records in an order the model has no variant for "
                            f"(late rollback {late_rollback}, plan stored before entry {store_first}, stored plan removed on failure {store_removed})")
+    # the up-front refusal of a plan id that is already recorded: it must sit before ApplyState::new and be UNCONDITIONAL
+    head = apply_fn[:apply_fn.find("ApplyState::new(")] if "ApplyState::new(" in apply_fn else ""
+    conds = [re.sub(r"\s+", "", m.group(1)) for m in re.finditer(r"\bif\s+([^{}]*?find_entry\(&plan\.id\)[^{}]*?)\{", head, re.S)]
+    dup_up_front = conds == ["History::load(renamify_dir)?.find_entry(&plan.id).is_some()"]
+    if "find_entry(&plan.id)" in head and not dup_up_front:
+        common.log("translate/execflags: apply_plan's up-front duplicate-id refusal is no longer the unconditional "
+                   f"`History::load(..)?.find_entry(&plan.id).is_some()` guard: {conds or 'find_entry outside an if condition'}")
     return {
+        "dupIdRefusedUpFront": dup_up_front,
         "rollbackRealPairs": "renames_executed" in rollback_fn,
         "logErrorsIgnored": "?;" not in log_fn,
         "historyEntryIsCommitPoint": late_rollback,
@@ -120,6 +128,8 @@ def flags(repo):
 
 
 DOC = {
+    "dupIdRefusedUpFront": "apply_plan refuses a plan whose id is already in the history before anything is touched, unconditionally "
+                           "(`if History::load(renamify_dir)?.find_entry(&plan.id).is_some()` ahead of ApplyState::new)",
     "rollbackRealPairs": "apply.rs::rollback reverts the renames with the paths they were executed with (renames_executed)",
     "logErrorsIgnored": "ApplyState::log drops a line it cannot write instead of propagating the error",
     "historyEntryIsCommitPoint": "apply_plan: patches, stored plan (removed on failure), history entry last; a failure rolls the renames back",
